@@ -495,23 +495,7 @@ func runEvals(storeID string, t *fga.Toks) attempt {
 	}
 	bat := "-"
 	if allBuild && len(items) > 0 && sem <= 0 {
-		breq := &openfgav1.BatchCheckRequest{StoreId: storeID}
-		for i, m := range maps {
-			breq.Checks = append(breq.Checks, &openfgav1.BatchCheckItem{
-				TupleKey: &openfgav1.CheckRequestTupleKey{User: m.user, Relation: m.rel, Object: m.obj},
-				Context:  ctxPB(m.ctx), CorrelationId: strconv.Itoa(i)})
-		}
-		bresp, err := getServer().BatchCheck(ctx, breq)
-		if err != nil {
-			c, _ := errCode(err)
-			bat = fmt.Sprintf("E%d", c)
-		} else {
-			var bs []string
-			for i := range maps {
-				bs = append(bs, batchItem(bresp.GetResult()[strconv.Itoa(i)]))
-			}
-			bat = list(bs)
-		}
+		bat = nativeBatch(storeID, maps)
 	}
 	agree := true
 	for j, a := range azItems {
@@ -520,6 +504,25 @@ func runEvals(storeID string, t *fga.Toks) attempt {
 		}
 	}
 	return attempt{out: fmt.Sprintf("az=%s chk=%s bat=%s map=%s", az, list(chk), bat, strings.Join(mapStr, "/")), agree: agree}
+}
+
+func nativeBatch(storeID string, maps []mapped) string {
+	breq := &openfgav1.BatchCheckRequest{StoreId: storeID}
+	for i, m := range maps {
+		breq.Checks = append(breq.Checks, &openfgav1.BatchCheckItem{
+			TupleKey: &openfgav1.CheckRequestTupleKey{User: m.user, Relation: m.rel, Object: m.obj},
+			Context:  ctxPB(m.ctx), CorrelationId: strconv.Itoa(i)})
+	}
+	bresp, err := getServer().BatchCheck(context.Background(), breq)
+	if err != nil {
+		c, _ := errCode(err)
+		return fmt.Sprintf("E%d", c)
+	}
+	var bs []string
+	for i := range maps {
+		bs = append(bs, batchItem(bresp.GetResult()[strconv.Itoa(i)]))
+	}
+	return list(bs)
 }
 
 func batchItem(r *openfgav1.BatchCheckSingleResult) string {
@@ -680,8 +683,11 @@ func runActionSearch(storeID string, m *fga.Model, t *fga.Toks) attempt {
 	sort.Strings(rels)
 	merged := mergeCtx(c, s.props, r.props, props{})
 	var chk, allowed []string
+	var maps []mapped
 	for _, rel := range rels {
-		x := nativeCheck(storeID, mapped{ok: true, user: s.typ + ":" + s.id, rel: rel, obj: r.typ + ":" + r.id, ctx: merged})
+		mp := mapped{ok: true, user: s.typ + ":" + s.id, rel: rel, obj: r.typ + ":" + r.id, ctx: merged}
+		maps = append(maps, mp)
+		x := nativeCheck(storeID, mp)
 		chk = append(chk, x)
 		if x == "T" {
 			allowed = append(allowed, esc(rel))
@@ -691,7 +697,8 @@ func runActionSearch(storeID string, m *fga.Model, t *fga.Toks) attempt {
 	if !known {
 		relsOut = "unknown-type"
 	}
-	return attempt{out: fmt.Sprintf("az=%s rels=%s chk=%s map=%s,%s,%s", az, relsOut, list(chk), esc(s.typ+":"+s.id), esc(r.typ+":"+r.id), ctxString(merged)),
+	bat := nativeBatch(storeID, maps)
+	return attempt{out: fmt.Sprintf("az=%s rels=%s chk=%s bat=%s map=%s,%s,%s", az, relsOut, list(chk), bat, esc(s.typ+":"+s.id), esc(r.typ+":"+r.id), ctxString(merged)),
 		agree: az == list(allowed) || strings.HasPrefix(az, "E")}
 }
 
@@ -930,6 +937,7 @@ func gen(r *hx.Rand, n int, tier string, emit func(string), st *hx.Stats) {
 					}
 				}
 				var items []string
+				claimed := false
 				for j := 0; j < ni; j++ {
 					it := fromReq(c, genReq(), true)
 					// drop the fields that the defaults can supply (sometimes also those they cannot)
@@ -943,6 +951,10 @@ func gen(r *hx.Rand, n int, tier string, emit func(string), st *hx.Stats) {
 						it.a = action{}
 					}
 					if c.Chance(1, 2) {
+						if !claimed && it.c.present && c.Chance(2, 3) {
+							def.c = it.c // the item relies on the inherited top-level context
+							claimed = true
+						}
 						it.c = props{}
 					}
 					items = append(items, it.enc())
